@@ -70,8 +70,8 @@ theorem header_roundtrip : ∀ f0 f1 f2 : Bool,
 theorem glue_pinned :
     Gen.pinReadPatchData = "d790de7baed0475a" ∧ Gen.pinPatchWriter = "d004ce4ac7f62d59" ∧
     Gen.pinGroupby = "26ee2f474530068a" ∧ Gen.pinSplitIntoPatches = "d3f24646fbf4ed14" ∧
-    Gen.pinWriteUnthreaded = "beb11a718588c0ac" ∧ Gen.pinFinalize = "b10f4b135092e0fa" ∧
-    Gen.pinWritePatchesMP = "09bef58681471587" := by decide
+    Gen.pinWriteUnthreaded = "8a5acea113c96fa9" ∧ Gen.pinFinalize = "48d74339a214e0d7" ∧
+    Gen.pinWritePatchesMP = "46c840d17381bc14" := by decide
 
 /-! non-vacuity -/
 example : arraySplit 3 [1, 2, 3, 4, 5, 6, 7] = [[1, 2, 3], [4, 5], [6, 7]] := by decide
